@@ -6,6 +6,14 @@ props=[json.loads(l) for l in open('/verif/properties.jsonl')]
 listed=set(l.split()[0] for l in subprocess.run(['/verif/bin/vischeck','-list'],capture_output=True,text=True).stdout.splitlines() if l.strip())
 TECH="static analysis over go/types + go/ssa of /repo's current tree: "
 CLAIMED={
+ 'C17':("acceptance edges (format and byte-length tests on the Exec parameter) as CFG cuts before every effectful instruction of Exec; execd/initd gates in Flush and Finish",
+        "Decides for every input and every position in a history that nothing with effects is reachable in Exec before both refusal points were passed on their success side, that refused bytes flow only into validators and logs, that output needs a prior execution and that a refused request cannot cause a save. Transcript equality of the two histories is not decided."),
+ 'C18':("origin analysis of every context argument, injection-before-use cuts with ordering against state establishment, key/type agreement of context writers and readers, translation-key production in ToKey",
+        "Decides the plumbing of the language selection on every path: contexts are never replaced, the VM/renderer context carries the language and is injected after the (possibly persisted) state is loaded, writers and readers agree on key and type, the selection is persisted, ToKey offers the translation key whenever a language is selected, unknown codes cannot change it. Behaviour of third-party resources is not decided."),
+ 'C19':("class-hierarchy reachability from the request path to writes of package-level state; library-wide field-based taint from borrowed byte slices to in-place write sinks",
+        "Removes the schedule quantifier by an ownership argument decided for all interleavings at once: no function reachable from the request path writes process-wide state, and slices borrowed from the shared immutable application data are never written in place. Application-supplied back ends and the race detector's run-time view are outside."),
+ 'C20':("CFG cuts for the graceful-end condition, reset-on-exit, TERMINATE test before recording code, pairing in the reset loop, who-may-clear TERMINATE, flag-byte write classes",
+        "Decides the structural clauses of session end and termination: out-of-code detection, the graceful-end condition, reset on every exiting path of Flush, restart point injection, TERMINATE checked before a run is classified, client flags kept. One known finding (pre-VM hook clears TERMINATE). Outputs over histories are not decided."),
  'C10':("per-backend CFG cuts (CheckPut gate, fallback lookup before not-found), store value classes for seal/lock, key-derivation flow to ToKey, constant masks vs DATATYPE table",
         "Decides the agreement clauses for each db.Db implementation of the library on every path: lock refusal before any mutation, seal monotone, one key derivation with default-language fallback, recognisable not-found, documented type predicates, resource refuses unlocked stores, context setters always take effect. Map semantics over operation histories and listing are not decided."),
  'C11':("backward value flow from storage primitives to LookupKey fields (re-slicing, non-injective transformations), separator and path hygiene checks",
